@@ -462,6 +462,8 @@ var c07CrossTM = func() map[string]reflect.Type {
 	tm, _ := hessian.ExtractTypeNameMap(&zoo.IntFields{})
 	tm["[long"] = reflect.TypeOf([]int64{})
 	tm["[int"] = reflect.TypeOf([]int32{})
+	tm["[int8"], tm["[int16"] = reflect.TypeOf([]int8{}), reflect.TypeOf([]int16{})
+	tm["[uint16"], tm["[uint32"] = reflect.TypeOf([]uint16{}), reflect.TypeOf([]uint32{})
 	return tm
 }()
 
@@ -504,6 +506,69 @@ func checkCrossWidth(v int32) string {
 			got := map[string]int64{"i8": int64(o.I8), "i16": int64(o.I16), "i32": int64(o.I32), "u8": int64(o.U8), "u16": int64(o.U16)}[fld]
 			if got != big {
 				return fmt.Sprintf("the long %d sent for the field %s of IntFields (%x) was accepted and stored as %d", big, fld, in, got)
+			}
+		}
+	}
+	// the same for a number sent in the form the field's own kind is written in (int form for the kinds up to 32
+	// bits, long form for uint32): the peer's class declares the field wider than the Go struct does (a Java int for
+	// an int8, a Java long for a uint32). What does not fit is refused, never stored as another number.
+	narrow := []struct {
+		fld    string
+		lo, hi int64
+		long   bool
+	}{
+		{"i8", math.MinInt8, math.MaxInt8, false}, {"i16", math.MinInt16, math.MaxInt16, false},
+		{"u8", 0, math.MaxUint8, false}, {"u16", 0, math.MaxUint16, false}, {"u32", 0, math.MaxUint32, true},
+	}
+	for _, n := range narrow {
+		for _, x := range []int64{int64(v), int64(v) << 8, -int64(v), int64(v) + 1<<32} {
+			if x >= n.lo && x <= n.hi {
+				continue
+			}
+			var num []byte
+			if n.long {
+				num = encLongRef(x)
+			} else if x >= math.MinInt32 && x <= math.MaxInt32 {
+				num = encInt(int32(x))
+			} else {
+				continue
+			}
+			in := append(append([]byte{'C', 0x09, 'I', 'n', 't', 'F', 'i', 'e', 'l', 'd', 's', 0x91, byte(len(n.fld))}, n.fld...), 0x60)
+			in = append(in, num...)
+			var out interface{}
+			var err error
+			if pv, _ := guard(func() { out, err = hessian.ToObject(in, c07CrossTM) }); pv != nil || err != nil {
+				continue
+			}
+			if o, ok := out.(*zoo.IntFields); ok {
+				got := map[string]int64{"i8": int64(o.I8), "i16": int64(o.I16), "u8": int64(o.U8), "u16": int64(o.U16), "u32": int64(o.U32)}[n.fld]
+				if got != x {
+					return fmt.Sprintf("the number %d sent for the field %s of IntFields (%x), which cannot hold it, was accepted and stored as %d", x, n.fld, in, got)
+				}
+			}
+			// ... and as the first of two elements of a typed list of that element kind
+			ltyp := map[string]string{"i8": "[int8", "i16": "[int16", "u16": "[uint16", "u32": "[uint32"}[n.fld]
+			if ltyp == "" {
+				continue
+			}
+			lin := append(append([]byte{0x72, byte(len(ltyp))}, ltyp...), num...)
+			lin = append(lin, 0x91)
+			var lout interface{}
+			if pv, _ := guard(func() { lout, err = hessian.ToObject(lin, c07CrossTM) }); pv != nil || err != nil {
+				continue
+			}
+			if rv := reflect.ValueOf(lout); rv.IsValid() && rv.Kind() == reflect.Slice && rv.Len() == 2 {
+				var got int64
+				if e0 := rv.Index(0); e0.Kind() >= reflect.Uint && e0.Kind() <= reflect.Uint64 {
+					got = int64(e0.Uint())
+				} else if e0.Kind() >= reflect.Int && e0.Kind() <= reflect.Int64 {
+					got = e0.Int()
+				} else {
+					continue
+				}
+				if got != x {
+					return fmt.Sprintf("the number %d sent as an element of a typed list %s (%x), whose elements cannot hold it, was accepted and stored as %d", x, ltyp, lin, got)
+				}
 			}
 		}
 	}
